@@ -54,6 +54,7 @@ type HarnessCfg struct {
 	Models    []string `json:"models"`
 	AllowPanics bool   `json:"allow_panics"`
 	Race      bool     `json:"race"` // native replay under the Go race detector
+	Nondet    bool     `json:"nondet"` // the native run has uncontrolled nondeterminism (map order): replay by stress
 }
 
 type PropCfg struct {
@@ -598,7 +599,7 @@ func cmdCheck(args []string) int {
 		// the engine reproduces in some stress run of the harness, not necessarily in the run of
 		// the same vector
 		raceFail, engineViol := "", false
-		if pr.h.Race {
+		if pr.h.Race || pr.h.Nondet {
 			for ii, kind := range pr.kinds {
 				if kind == "violation" {
 					engineViol = true
@@ -626,7 +627,7 @@ func cmdCheck(args []string) int {
 			switch {
 			case kind == "witness":
 				w := pr.wits[ii]
-				if o.Result != "completed" && pr.h.Race && engineViol {
+				if o.Result != "completed" && (pr.h.Race || pr.h.Nondet) && engineViol {
 					continue // the native stress run hit the schedule the engine reports as a violation
 				}
 				if o.Result != "completed" {
@@ -657,7 +658,7 @@ func cmdCheck(args []string) int {
 					// harness assertion fail or the real code panic natively
 					confirmed = true
 				}
-				if !confirmed && pr.h.Race && raceFail != "" && kind == "violation" {
+				if !confirmed && (pr.h.Race || pr.h.Nondet) && raceFail != "" && kind == "violation" {
 					confirmed = true
 					o.Result = raceFail + " (in another stress run of this harness)"
 				}
